@@ -120,6 +120,25 @@ fn scenario_y(name: &'static str, consumers: Vec<COp>, event: Event, cancel_firs
     })
 }
 
+/// The smallest cancel scenarios, shared with C15 (a blocked Pull must return as soon as a message is available, also
+/// when the consumer that was woken first has gone away).
+pub fn cancel_units_small(thorough: bool) -> Vec<Unit> {
+    use COp::*;
+    let mut v = vec![];
+    for (cn, c) in [("pull1+pull1", vec![PullBlock(S0, 1), PullBlock(S0, 1)]), ("pull10+pull10", vec![PullBlock(S0, 10), PullBlock(S0, 10)])] {
+        for e in [Event::Publish1, Event::Nack] {
+            v.push(explore_unit(
+                format!("sched-cancel/cap0/{}/{:?}", cn, e),
+                format!("consumers {:?}, event {:?}, the first consumer is cancelled after k polls for every k", c, e),
+                Bounds::new(if thorough { 3 } else { 1 }),
+                ExecCfg::default(),
+                scenario("cancel", c.clone(), e, true),
+            ));
+        }
+    }
+    v
+}
+
 pub fn units(thorough: bool) -> Vec<Unit> {
     use COp::*;
     let d = if thorough { 5 } else { 2 };
